@@ -65,6 +65,11 @@ def ok_observation(out: str) -> bool:
 # ------------------------------------------------------------------------------------------------
 # projection onto the labels of Haiway.Groups
 
+def blocks_of_disp(blocks) -> dict[int, int]:
+    """disposable id -> the block it belongs to"""
+    return {d[0]: b for b, st in blocks.items() for d in st[4]}
+
+
 def model_input(case: str, out: str) -> str:
     if not ok_observation(out):
         return "unobserved." + out[:20].replace(" ", "_")
@@ -118,7 +123,16 @@ def model_input(case: str, out: str) -> str:
                     toks.append(f"bodyend.{who}.{e[2]}.{OUT.get(e[3], '?' + e[3])}")
         elif k == "left":
             if e[2] not in entered:   # `__aenter__` raised: modelled only as delivery of a pending cancellation
-                toks.append(f"enterfail.{who}.{e[2]}.{OUT.get(e[3], '?' + e[3])}")
+                o = OUT.get(e[3], '?' + e[3])
+                # the rollback of an enter interrupted by a cancellation (its `__aexit__` calls received the CancelledError)
+                # during which a disposable's cleanup raised: the cancellation was delivered, then user code replaced it
+                rolled_back_cancel = any(x[0] == who and x[1] == "dex" and x[3] == "Cancelled"
+                                         and blocks_of_disp(blocks).get(int(x[2])) == int(e[2]) for x in evs[:idx])
+                if o in ("e", "b") and rolled_back_cancel:
+                    toks.append(f"enterfail.{who}.{e[2]}.c")
+                    toks.append(f"raise.{who}.{o}")
+                else:
+                    toks.append(f"enterfail.{who}.{e[2]}.{o}")
             else:
                 toks.append(f"left.{who}.{e[2]}.{OUT.get(e[3], '?' + e[3])}.{e[5]}")
         elif k == "await":
